@@ -25,8 +25,12 @@ def gen_case(rng):
     if heavy and rng.random() < 0.6:
         # newest first: while the queue is full, a job that is not the oldest finishes first
         order = [s['name'] for s in reversed(steps)]
+    second = rng.random() < 0.2
     return {'steps': steps, 'skip': skip, 'ncpu': ncpu, 'order': order, 'detached': rng.random() < 0.25,
-            'second_invocation': rng.random() < 0.2}
+            'second_invocation': second,
+            # how the second invocation is made: a fresh one, or a resume of an older invocation of the same day whose
+            # directory name is a proper prefix of the running one's (DATE.1 while DATE.10 runs)
+            'second_kind': rng.choice(['fresh', 'resume-prefix']) if second else None}
 
 
 def step_toks(case):
@@ -65,6 +69,16 @@ def run_case(ctx, impl, drv, case):
     codes = {s['name']: s['exit'] for s in case['steps']}
     ob = {'rounds': [], 'lock_samples': []}
     try:
+        older = None
+        if case.get('second_kind') == 'resume-prefix':
+            # nine finished invocations of today, so that the one under test is named DATE.10
+            today = time.strftime('%Y-%m-%d')
+            for k in range(1, 10):
+                d = os.path.join(cv.root, '%s.%d' % (today, k))
+                os.makedirs(os.path.join(d, 'tmp'))
+                open(os.path.join(d, 'step.csv'), 'w').write('step,name,exit,duration,delta,log,user,time,skip\n1,%s,1,1,0,001-x.log,root,1700000000,0\n' % case['steps'][0]['name'])
+                open(os.path.join(d, 'robsd.log'), 'w').write('')
+            older = os.path.join(cv.root, '%s.1' % today)
         proc = cv.start([] if case['detached'] else ['-d'])
         finished = []
         second = None
@@ -83,16 +97,18 @@ def run_case(ctx, impl, drv, case):
                 got = [t[1] for t in cv.trace() if t[0] == 'start']
             ob['rounds'].append({'finished': list(finished), 'model_starts': want, 'impl_starts': got})
             lk = cv.lockfile()
-            bds = cv.builddirs()
+            bds = [b for b in cv.builddirs() if older is None or b.endswith('.10')]
             if m['running'] and got == want:
                 # sampled only while steps of this invocation are known to be waiting at their gates
                 ob['lock_samples'].append(bool(lk and bds and lk.strip() == bds[0]))
             if case.get('second_invocation') and second is None and bds and m['running']:
                 # a second invocation while the first runs: must be refused and leave the first alone
                 before = cv.stepfile(bds[0])
-                r2 = subprocess.run(['bash', os.path.join(impl, 'canvas'), '-d', '-C', cv.conf], env=cv.env(), cwd=work,
+                ndirs = len(cv.builddirs())
+                extra = ['-r', older] if older else []
+                r2 = subprocess.run(['bash', os.path.join(impl, 'canvas'), '-d', '-C', cv.conf] + extra, env=cv.env(), cwd=work,
                                     stdout=subprocess.PIPE, stderr=subprocess.STDOUT, timeout=60)
-                second = {'rc': r2.returncode, 'builddirs_after': [os.path.basename(b) for b in cv.builddirs()],
+                second = {'rc': r2.returncode, 'builddirs_after': [os.path.basename(b) for b in cv.builddirs()][:1] if len(cv.builddirs()) == ndirs else [os.path.basename(b) for b in cv.builddirs()],
                           'lock_same': cv.lockfile() == lk, 'first_untouched': cv.stepfile(bds[0]) == before,
                           'out': r2.stdout.decode('latin1')[-300:]}
             if got != want:
@@ -117,7 +133,7 @@ def run_case(ctx, impl, drv, case):
             orch_env.wait_for(lambda: cv.lockfile() is None, timeout=10)
             time.sleep(0.05)
         ob['out'] = out.decode('latin1')[-600:]
-        bds = cv.builddirs()
+        bds = [b for b in cv.builddirs() if older is None or b.endswith('.10')]
         ob['builddirs'] = [os.path.basename(b) for b in bds]
         bd = bds[0] if bds else None
         ob['trace'] = cv.trace()
